@@ -231,10 +231,11 @@ var vC17Stream2Progs = []struct {
 	{"i = 0; s = 0; while i < 2 { i = i + 1; s = s + C2T3 }; s + C10T1", []string{"C2T3 2 3", "C2T3 2 3", "C10T1 10 1"}, 21},
 }
 
-//vh:prop=C17 tiers=quick,thorough sigkeys=prog,reuse budget_s=600 bounds="5 programs with one to three operands of a custom syntax C<a>T<b> registered as a stream parser that returns explicit groups, either in fresh storage or in one slice it reuses for every call (its own property): the handler receives, for each operand and each evaluation, exactly that operand's text and groups, in order, and the value is the sum the groups imply"
+//vh:prop=C17 tiers=quick,thorough sigkeys=prog,reuse,display budget_s=600 bounds="5 programs with one to three operands of a custom syntax C<a>T<b> registered as a stream parser that returns explicit groups, either in fresh storage or in one slice it reuses for every call (its own property), with no display text or one shorter / longer than the consumed text: the handler receives, for each operand and each evaluation, exactly that operand's text and groups, in order, and the value is the sum the groups imply"
 func VH_C17_stream2() {
 	pr := vC17Stream2Progs[vChoice("prog", len(vC17Stream2Progs))]
 	reuse := vChoice("reuse", 2) == 1
+	display := vChoice("display", 3)
 	vm := vNewVM()
 	vm.Config.OpCountLimit = 30000
 	var got []string
@@ -261,7 +262,8 @@ func VH_C17_stream2() {
 			g = make([]string, 3)
 		}
 		g[0], g[1], g[2] = "C"+a+"T"+b, a, b
-		return &CustomDiceParseResult{Matched: true, Groups: g}, nil
+		// what is shown for the operand need not be as long as what was consumed
+		return &CustomDiceParseResult{Matched: true, Groups: g, Display: []string{"", "c", "check(" + a + ", " + b + ")"}[display]}, nil
 	}, func(ctx *Context, groups []string, payload any) (*VMValue, string, error) {
 		if len(groups) != 3 {
 			got = append(got, "<wrong group count>")
@@ -278,6 +280,7 @@ func VH_C17_stream2() {
 	if err != nil {
 		return
 	}
+	vAssert(vm.RestInput == "", "program-consumed-entirely")
 	vAssert(len(got) == len(pr.calls), "handler-runs-once-per-evaluation-of-each-operand")
 	for i := range got {
 		if i < len(pr.calls) {
